@@ -5,6 +5,7 @@ import (
 	"fmt"
 	"io"
 	"strings"
+	"sync"
 
 	"github.com/polynetwork/poly/common"
 	"github.com/polynetwork/poly/common/config"
@@ -286,6 +287,84 @@ func (f *p2pFam) holdOp(r *hx.Run, magic uint32, op []string) string {
 				kind, trunc(before, 160), trunc(after, 160), trunc(hx.Hex(re), 120), trunc(hx.Hex(f1), 120)))
 			return "FAIL:changed " + kind
 		}
+		// the other direction: frames written by WriteMessage (and ConsensusPayload.ToArray) are kept while more are written
+		frames := [][]byte{f1, f2, f3}
+		var msgs []mt.Message
+		var wants [][]byte
+		for _, fr := range frames {
+			if m, _, err := mt.ReadMessage(bytes.NewReader(fr)); err == nil {
+				msgs = append(msgs, m)
+				wants = append(wants, fr)
+			}
+		}
+		writeRaw := func(m mt.Message) []byte {
+			sink := common.NewZeroCopySink(nil)
+			if err := mt.WriteMessage(sink, m); err != nil {
+				panic(err)
+			}
+			return sink.Bytes()
+		}
+		held := make([][]byte, len(msgs))
+		var heldCons [][2][]byte
+		for i, m := range msgs {
+			held[i] = writeRaw(m)
+			if c, ok := m.(*mt.Consensus); ok {
+				heldCons = append(heldCons, [2][]byte{c.Cons.ToArray(), wants[i][24:]})
+			}
+		}
+		for i := len(msgs) - 1; i >= 0; i-- {
+			writeRaw(msgs[i])
+			if c, ok := msgs[i].(*mt.Consensus); ok {
+				c.Cons.ToArray()
+			}
+		}
+		for i := range held {
+			if !bytes.Equal(held[i], wants[i]) {
+				k, _ := renderMsg(msgs[i])
+				r.Viol("C05:written-frame-changed-later:"+k, fmt.Sprintf("the frame WriteMessage produced for a %s message reads %s after later frames were written (was %s)", k, trunc(hx.Hex(held[i]), 100), trunc(hx.Hex(wants[i]), 100)))
+				return "FAIL:written-changed " + kind
+			}
+		}
+		for _, hc := range heldCons {
+			if !bytes.Equal(hc[0], hc[1]) {
+				r.Viol("C05:written-frame-changed-later:ConsensusPayload.ToArray", "the slice returned by ConsensusPayload.ToArray changed after later encodings")
+				return "FAIL:written-changed " + kind
+			}
+		}
+		var wg sync.WaitGroup
+		bad := make(chan string, 4)
+		for w := 0; w < 2 && len(msgs) > 0; w++ {
+			wg.Add(1)
+			go func(w int) {
+				defer wg.Done()
+				defer func() {
+					if e := recover(); e != nil {
+						select {
+						case bad <- fmt.Sprint("panic while writing: ", e):
+						default:
+						}
+					}
+				}()
+				for round := 0; round < 20; round++ {
+					k := (round + w) % len(msgs)
+					a := writeRaw(msgs[k])
+					writeRaw(msgs[(k+1)%len(msgs)])
+					if !bytes.Equal(a, wants[k]) {
+						select {
+						case bad <- fmt.Sprintf("goroutine %d round %d: a written frame changed while another frame was written", w, round):
+						default:
+						}
+						return
+					}
+				}
+			}(w)
+		}
+		wg.Wait()
+		close(bad)
+		for msg := range bad {
+			r.Viol("C05:written-frame-changed-under-concurrent-write", msg)
+			return "FAIL:concurrent-write " + kind
+		}
 		return "ok " + kind
 	})
 	if res == "panic" {
@@ -527,6 +606,30 @@ func (f *p2pFam) Gen(r *hx.Run) {
 		newCase("headers-count")
 		out := rd(magics[0], reframe(magics[0], "headers", append(append([]byte{}, u32le(c)...), f.led.genHeader(r).ToArray()...)))
 		r.Nontrivial(fmt.Sprintf("headers-count/%d/%s", c, outClass(out)))
+	}
+	// 1b. a header with a huge bookkeeper / signature count inside a headers frame and a block frame
+	{
+		h0 := f.led.genHeader(r)
+		h0.Bookkeepers, h0.SigData = nil, nil
+		full := h0.ToArray()
+		ul := len(full) - 2
+		for _, c := range []uint64{^uint64(0), 1 << 63, 1 << 60, 1 << 48} {
+			for pos := 0; pos < 2; pos++ {
+				hb := append([]byte{}, full[:ul]...)
+				if pos == 1 {
+					hb = append(hb, 0)
+				}
+				hb = append(append(hb, varuintBytes(c, 3)...), r.Rng.Bytes(8)...)
+				if !f.sawPanic["headers"] {
+					newCase("headers-hdrcount")
+					rd(magics[0], reframe(magics[0], "headers", append(u32le(1), hb...)))
+				}
+				if !f.sawPanic["block"] {
+					newCase("block-hdrcount")
+					rd(magics[0], reframe(magics[0], "block", hb))
+				}
+			}
+		}
 	}
 	// 2. valid frames of every kind
 	per := r.Pick(60, 1200)
